@@ -1546,14 +1546,25 @@ class C03R(PropOracle):
         got = {}
         for r in res.get("results", []):
             got.setdefault(r["name"], []).append(classify(r["return_code"], r["status"]))
+        # everything that did not succeed was rerun (flags failed+missing), so the final outcome is the reference
+        # evaluation of the whole graph with the exit codes of the second run
+        codes2 = {}
+        for n, c_ in w.scen["exit_codes"].items():
+            codes2[n] = c_[min(1, len(c_) - 1)] if isinstance(c_, (list, tuple)) else c_
+        ref = reference(w.scen["jobs"], codes2)
         for j in w.scen["jobs"]:
             n = j["name"]
-            if got.get(n) != ["successful"]:
-                self.v(w, f"after the resubmission job {n} has entries {got.get(n)} (missing_jobs={res.get('missing_jobs')}), expected one successful entry",
+            if got.get(n) != [ref[n]]:
+                self.v(w, f"after the resubmission job {n} has entries {got.get(n)} (missing_jobs={res.get('missing_jobs')}), expected one '{ref[n]}' entry",
                        "resubmission-result")
+            ln = o.launch.get(n, 0)
+            if ref[n] == "canceled" and ln and n in (w.data.get("rerun_seen") or {n}):
+                self.v(w, f"job {n} must be canceled in the resubmitted run (a blocker failed again) but was started", "resubmission-canceled-job-ran")
         summ = res.get("results_summary", {})
-        if summ.get("num_successful") != len(w.scen["jobs"]) or summ.get("num_failed") or summ.get("num_canceled") or summ.get("num_missing"):
-            self.v(w, f"results_summary after the resubmission: {summ} for {len(w.scen['jobs'])} successful jobs", "resubmission-tallies")
+        want = {k: sum(1 for v in ref.values() if v == k) for k in ("successful", "failed", "canceled")}
+        if (summ.get("num_successful"), summ.get("num_failed"), summ.get("num_canceled"), summ.get("num_missing")) != (
+                want["successful"], want["failed"], want["canceled"], 0):
+            self.v(w, f"results_summary after the resubmission: {summ}, expected {want} and no missing jobs", "resubmission-tallies")
 
 
 class C04R(C03R):
